@@ -28,6 +28,10 @@ def scenarios(rng, tier):
     for init in (0, 1, 8):
         for seq in itertools.product(["Ba5", "Ba40", "Bz3", "Bz20", "Br100", "Br2", "Bp", "Bc"], repeat=3 if thorough else 2):
             sc.append([f"Bi{init}"] + list(seq) + ["Bd"])
+    # views over caller memory: never grown, shrunk, pruned into an allocation or freed
+    for init in (0, 1, 4, 8):
+        for seq in itertools.product(["Ba0", "Ba3", "Ba40", "Bz0", "Bz3", "Br100", "Br2", "Bp", "Bc"], repeat=2):
+            sc.append([f"Bv{init}"] + list(seq) + ["Bd"])
     # files
     tb, _ = traj_block(rng, nseg=3, scale=10)
     yb, _ = yaw_block(rng, n=3)
